@@ -988,6 +988,11 @@ impl<'a> Gen<'a> {
             }
             Clone => {
                 let d = self.any_reg();
+                // Clone::clone_from into a live queue of the same kind, otherwise clone()
+                if d != r && self.regs[d].kind == self.regs[r].kind && self.rng.pct(50) {
+                    self.regs[d] = self.regs[r].clone();
+                    return format!("clonefrom {r} {d}");
+                }
                 self.regs[d] = self.regs[r].clone();
                 format!("clone {r} {d}")
             }
